@@ -991,6 +991,212 @@ void TaskOverwriteCase(Ctx& ctx) {
             "%ld references to the functors' capture are still alive after the overwritten pipeline and every local are gone",
             static_cast<long>(token.use_count()) - 1);
 }
+
+// ---- round 8: a coroutine that is already bound to executor e asks for e again (On / Yield / kYield)
+// * after the executor was stopped in between: the coroutine must be handed to e, dropped there, completed with StopError
+//   and its frame destroyed — nothing after the co_await runs;
+// * after an inline resumption on a foreign thread (the awaited future came from MakeContractOn(e), so the coroutine's
+//   executor still is e although it does not run there): On(e) must really bring it back to e;
+// * co_return of an lvalue whose copy throws: the exception becomes the coroutine's own Result.
+struct ThrowingCopy {
+  int v = 0;
+  bool armed = false;
+  ThrowingCopy() = default;
+  ThrowingCopy(int x, bool a) : v{x}, armed{a} {
+  }
+  ThrowingCopy(ThrowingCopy&& o) noexcept : v{o.v}, armed{o.armed} {
+  }
+  ThrowingCopy& operator=(ThrowingCopy&& o) noexcept {
+    v = o.v;
+    armed = o.armed;
+    return *this;
+  }
+  ThrowingCopy(const ThrowingCopy& o) : v{o.v}, armed{o.armed} {
+    if (o.armed) {
+      throw MyException{o.v};
+    }
+  }
+  ThrowingCopy& operator=(const ThrowingCopy&) = default;
+};
+
+void RebindCase(Ctx& ctx) {
+  ResetTags();
+  int variant = static_cast<int>(ctx.rng.Below(3));  // 0 stop-then-rebind, 1 foreign-resume-then-On(same), 2 throwing co_return copy
+  int how = static_cast<int>(ctx.rng.Below(3));      // 0 On(e), 1 Yield(), 2 kYield
+  int yields_before = static_cast<int>(ctx.rng.Below(3));
+  bool task_kind = ctx.rng.Coin();
+  int code = static_cast<int>(ctx.rng.In(1, 1000));
+  u32 jit = ctx.rng.Below(8);
+  auto pool = yaclib::MakeFairThreadPool(1);
+  TagExec own{1, *pool};
+  std::atomic<int> after{0}, bad_tag{0}, seen_tag{-9}, locals_alive{0};
+  struct Local {
+    std::atomic<int>& n;
+    explicit Local(std::atomic<int>& c) : n{c} {
+      n.fetch_add(1, kRlx);
+    }
+    ~Local() {
+      n.fetch_sub(1, kRlx);
+    }
+  };
+  if (variant == 0) {
+    ctx.Note("coroutine bound to e, e stopped, then %s: must be dropped by e (StopError, frame destroyed); %d yields before; %s",
+             how == 0 ? "On(e) again" : how == 1 ? "Yield()" : "kYield", yields_before, task_kind ? "Task" : "Future");
+    int state = -9, errcode = 0;
+    {
+      auto fbody = [&]() -> yaclib::Future<int, MyError> {
+        Local l{locals_alive};
+        co_await yaclib::On(own);
+        for (int i = 0; i < yields_before; ++i) {
+          co_await yaclib::Yield();
+        }
+        pool->Stop();
+        if (how == 0) {
+          co_await yaclib::On(own);
+        } else if (how == 1) {
+          co_await yaclib::Yield();
+        } else {
+          co_await yaclib::kYield;
+        }
+        after.fetch_add(1, kRlx);
+        co_return code;
+      };
+      auto tbody = [&]() -> yaclib::Task<int, MyError> {
+        Local l{locals_alive};
+        co_await yaclib::On(own);
+        for (int i = 0; i < yields_before; ++i) {
+          co_await yaclib::Yield();
+        }
+        pool->Stop();
+        if (how == 0) {
+          co_await yaclib::On(own);
+        } else if (how == 1) {
+          co_await yaclib::Yield();
+        } else {
+          co_await yaclib::kYield;
+        }
+        after.fetch_add(1, kRlx);
+        co_return code;
+      };
+      yaclib::Future<int, MyError> f = task_kind ? tbody().ToFuture() : fbody();
+      yaclib::Wait(f);
+      auto r = std::move(f).Get();
+      state = static_cast<int>(r.State());
+      if (r.State() == yaclib::ResultState::Error) {
+        errcode = std::as_const(r).Error().code;
+      }
+    }
+    pool->Wait();
+    ctx.SetNontrivial(true);
+    ctx.Observe(static_cast<u64>(how * 8 + yields_before * 2 + (task_kind ? 1 : 0)));
+    ctx.Check(after.load(kRlx) == 0, "stopped-executor-runs-nothing", "C13,C05",
+              "the body after a co_await that hands the coroutine to its own, meanwhile stopped, executor ran %d times", after.load(kRlx));
+    ctx.Check(state == 2 && errcode == -1, "stopped-executor-gives-StopError", "C13,C05",
+              "the coroutine's result is state %d (error code %d), expected StopError", state, errcode);
+    ctx.Check(locals_alive.load(kRlx) == 0, "frame-destroyed", "C13,C03", "%d coroutine frame locals are still alive after the result was read",
+              locals_alive.load(kRlx));
+    return;
+  }
+  if (variant == 1) {
+    ctx.Note("coroutine bound to e resumed inline by a foreign thread (future from MakeContractOn(e)), then On(e): must run on e; %s",
+             task_kind ? "Task" : "Future");
+    int got = -9;
+    {
+      auto [cf, cp] = yaclib::MakeContractOn<int, MyError>(own);
+      auto src = std::move(cf).On(nullptr);
+      auto fbody = [&]() -> yaclib::Future<int, MyError> {
+        Local l{locals_alive};
+        co_await yaclib::On(own);
+        co_await yaclib::Await(src);
+        seen_tag.store(CurTag(), kRlx);
+        co_await yaclib::On(own);
+        if (CurTag() != 1) {
+          bad_tag.fetch_add(1, kRlx);
+        }
+        if (&co_await yaclib::CurrentExecutor() != static_cast<yaclib::IExecutor*>(&own)) {
+          bad_tag.fetch_add(1, kRlx);
+        }
+        after.fetch_add(1, kRlx);
+        co_return std::as_const(src).Touch().Ok() + 1;
+      };
+      auto tbody = [&]() -> yaclib::Task<int, MyError> {
+        Local l{locals_alive};
+        co_await yaclib::On(own);
+        co_await yaclib::Await(src);
+        seen_tag.store(CurTag(), kRlx);
+        co_await yaclib::On(own);
+        if (CurTag() != 1) {
+          bad_tag.fetch_add(1, kRlx);
+        }
+        if (&co_await yaclib::CurrentExecutor() != static_cast<yaclib::IExecutor*>(&own)) {
+          bad_tag.fetch_add(1, kRlx);
+        }
+        after.fetch_add(1, kRlx);
+        co_return std::as_const(src).Touch().Ok() + 1;
+      };
+      yaclib_std::thread producer([&] {
+        Jitter(jit);
+        std::move(cp).Set(code);
+      });
+      yaclib::Future<int, MyError> f = task_kind ? tbody().ToFuture() : fbody();
+      producer.join();
+      yaclib::Wait(f);
+      auto r = std::move(f).Get();
+      got = r.State() == yaclib::ResultState::Value ? std::as_const(r).Value() : -1;
+    }
+    pool->Stop();
+    pool->Wait();
+    ctx.SetNontrivial(true);
+    ctx.Observe(static_cast<u64>(100 + seen_tag.load(kRlx) * 2 + (task_kind ? 1 : 0)));
+    ctx.Class(seen_tag.load(kRlx) == 1 ? "resumed-on-own" : "resumed-on-foreign-thread");
+    ctx.Check(bad_tag.load(kRlx) == 0, "resumed-on-executor", "C13,C05",
+              "after On(e) the coroutine did not run on e / CurrentExecutor() is not e (%d observations; before On(e) it ran with tag %d)",
+              bad_tag.load(kRlx), seen_tag.load(kRlx));
+    ctx.Check(got == code + 1 && after.load(kRlx) == 1, "awaited-outcome", "C13", "the coroutine delivered %d (body ran %d times), expected %d", got,
+              after.load(kRlx), code + 1);
+    ctx.Check(locals_alive.load(kRlx) == 0, "frame-destroyed", "C13,C03", "%d coroutine frame locals are still alive", locals_alive.load(kRlx));
+    return;
+  }
+  bool armed = ctx.rng.Below(4) != 0;
+  ctx.Note("co_return of an lvalue reference whose copy constructor %s; %s", armed ? "throws" : "does not throw", task_kind ? "Task" : "Future");
+  int state = -9, got = -9;
+  {
+    ThrowingCopy value{code, armed};
+    auto fbody = [&](const ThrowingCopy& ref) -> yaclib::Future<ThrowingCopy, MyError> {
+      Local l{locals_alive};
+      co_await yaclib::On(own);
+      co_return ref;
+    };
+    auto tbody = [&](const ThrowingCopy& ref) -> yaclib::Task<ThrowingCopy, MyError> {
+      Local l{locals_alive};
+      co_await yaclib::On(own);
+      co_return ref;
+    };
+    yaclib::Future<ThrowingCopy, MyError> f = task_kind ? tbody(value).ToFuture() : fbody(value);
+    yaclib::Wait(f);
+    auto r = std::move(f).Get();
+    state = static_cast<int>(r.State());
+    if (r.State() == yaclib::ResultState::Value) {
+      got = std::as_const(r).Value().v;
+    } else if (r.State() == yaclib::ResultState::Exception) {
+      try {
+        std::rethrow_exception(std::as_const(r).Exception());
+      } catch (const MyException& e) {
+        got = e.code;
+      } catch (...) {
+        got = -2;
+      }
+    }
+  }
+  pool->Stop();
+  pool->Wait();
+  ctx.SetNontrivial(true);
+  ctx.Observe(static_cast<u64>(200 + (armed ? 2 : 0) + (task_kind ? 1 : 0)));
+  ctx.Check(state == (armed ? 1 : 0) && got == code, "escaping-exception-becomes-result", "C13",
+            "co_return of an lvalue (copy %s): result state %d payload %d, expected state %d payload %d", armed ? "throws" : "ok", state, got, armed ? 1 : 0,
+            code);
+  ctx.Check(locals_alive.load(kRlx) == 0, "frame-destroyed", "C13,C03", "%d coroutine frame locals are still alive", locals_alive.load(kRlx));
+}
 }  // namespace
 
 VF_CELL(co_future, "future-coroutine/live", "C13,C03,C04,C06", 30) {
@@ -1019,6 +1225,9 @@ VF_CELL(co_task_overwrite, "lazy-task-overwritten", "C12,C03", 4) {
 }
 VF_CELL(co_await_task, "await-lazy-task", "C13,C12,C03,C05", 12) {
   AwaitTaskCase(ctx);
+}
+VF_CELL(co_rebind, "rebind-same-executor", "C13,C05,C03", 6) {
+  RebindCase(ctx);
 }
 
 int main(int argc, char** argv) {
